@@ -239,23 +239,57 @@ func (f *Frame) loopNames(li *loopInfo, phiVals map[*ssa.Phi]string) map[string]
 	}
 	h := li.header
 	// single-assignment locals via DebugRef
+	// For each name, the binding is the value of the last reference (definition or
+	// use) of that name in a block that strictly dominates the loop header: on
+	// every path to the header that is the variable's current value, provided no
+	// other reference of the name lies between it and the header (checked: all
+	// references in dominating blocks are ordered by dominance, and references in
+	// non-dominating blocks that reach the header make the name ambiguous unless
+	// they carry the same value).
 	cand := map[string]map[ssa.Value]bool{}
+	type lastRef struct {
+		d   *ssa.DebugRef
+		idx int
+	}
+	last := map[string]lastRef{}
+	ambiguous := map[string]bool{}
 	for _, b := range f.fn.Blocks {
-		for _, in := range b.Instrs {
-			if d, ok := in.(*ssa.DebugRef); ok && !d.IsAddr {
-				if id := identName(d); id != "" {
-					if cand[id] == nil {
-						cand[id] = map[ssa.Value]bool{}
-					}
-					cand[id][d.X] = true
+		for idx, in := range b.Instrs {
+			d, ok := in.(*ssa.DebugRef)
+			if !ok || d.IsAddr {
+				continue
+			}
+			id := identName(d)
+			if id == "" {
+				continue
+			}
+			if li.blocks[b] {
+				continue // references inside the loop do not define the value at its head
+			}
+			if !(b.Dominates(h) && b != h) {
+				// a reference on some side path: only harmless if it names the same value
+				if cand[id] == nil {
+					cand[id] = map[ssa.Value]bool{}
 				}
+				cand[id][d.X] = true
+				continue
+			}
+			l, seen := last[id]
+			if !seen || l.d.Block().Dominates(b) && (l.d.Block() != b || l.idx < idx) {
+				last[id] = lastRef{d, idx}
 			}
 		}
 	}
-	for n, vs := range cand {
-		if len(vs) != 1 {
-			continue
+	chosen := map[string]map[ssa.Value]bool{}
+	for n, l := range last {
+		// (A name bound to a different SSA value than the author intended cannot
+		// make a proof unsound: the invariant is checked and assumed for the same
+		// value; it can only make the invariant unprovable.)
+		if !ambiguous[n] {
+			chosen[n] = map[ssa.Value]bool{l.d.X: true}
 		}
+	}
+	for n, vs := range chosen {
 		for v := range vs {
 			in, ok := v.(ssa.Instruction)
 			if ok && !(in.Block().Dominates(h) && in.Block() != h) {
